@@ -26,6 +26,10 @@
 //!   customnew <n> (<type> <hex>)*  → ok … | err          real: public RecipientCustomTlvs::new
 //!   payloaddec <payload> <bp 0|1> <fwd|recv|na> <show invreq>  → kind=… amt=… custom=…
 //!        real: what that hop's node learns from peel_payment_onion (PendingHTLCInfo) on the real onion
+//!   fwdblind <fwd|bfwd> <payload intro point|none> <update_add point|none> <override|none> <derived>  → none next=none | blinded <inbound> <override|none> <intro|node> next=<pt>
+//!        real: peel_payment_onion (create_fwd_pending_htlc_info) at every forwarding hop of CONCATENATED blinded paths
+//!        (first path through the hook blinded_hops_raw with TLV 8 on its last hop, second path BlindedPaymentPath::new)
+//!   fwdchain <first path key> <n> (<override|none> <derived>)*  → what every tail hop recorded (model: relayBlinded)
 //!   blinded section: real BlindedPaymentPath::new / one_hop recipients (0..3 blinded forwarding nodes), keysend,
 //!        invoice_request, custom TLV types drawn below / between / above 77_777 and 5482373484 (odd and even)
 //! ECDH and ephemeral-key blinding are TRUSTED: the ephemeral keys stay on the Rust side, the
@@ -586,6 +590,173 @@ fn blinded_section(ctx: &Ctx, rng: &mut Rng, rec: &mut Rec, thorough: bool, scal
 	}
 }
 
+/// CONCATENATED blinded paths: a first path (introduction node + 0..2 more forwarding nodes, built through the add-only hook
+/// `blinded_hops_raw` because LDK reads but never writes TLV 8) whose LAST hop carries `next_blinding_override` = the
+/// blinding point of a second, real `BlindedPaymentPath` (0..2 forwarding nodes + recipient).  Real onion, every hop peels
+/// with its own node key, the blinding point is handed on the way channelmanager does.  Oracle = the property: every hop's
+/// peeled instructions are what the path creators put in (next channel, amount, expiry, path-key override, role) and the
+/// recipient recognises itself as final with the right payment data.  Model: the generated fwdBlinded / nextBlindingPoint
+/// (`fwdblind`, per hop) and their chain relayBlinded (`fwdchain`, per route).
+fn concat_section(ctx: &Ctx, rng: &mut Rng, rec: &mut Rec, thorough: bool, scale: u64) {
+	use lightning::blinded_path::payment::{BlindedPaymentPath, Bolt12RefundContext, ForwardTlvs, PaymentConstraints, PaymentContext, PaymentForwardNode, PaymentRelay, ReceiveTlvs};
+	use lightning::ln::channelmanager::BlindedFailure;
+	use lightning::routing::router::BlindedTail;
+	use lightning::types::features::BlindedHopFeatures;
+	use lightning::util::ser::Writeable;
+	let min_delta = lightning::ln::channelmanager::MIN_CLTV_EXPIRY_DELTA as u32;
+	let n_routes = (if thorough { 1500 } else { 150 }) * scale;
+	let pt = |p: &Option<PublicKey>| p.map(|x| hex(&x.serialize())).unwrap_or("none".into());
+	for r in 0..n_routes {
+		let u = 1 + rng.below(2) as usize;                  // unblinded hops; the last one is the introduction node of the FIRST path
+		let p1 = 1 + rng.below(3) as usize;                 // forwarding nodes of the first path (the first is its introduction node)
+		let p2 = rng.below(3) as usize;                     // forwarding nodes of the second path (0: its only hop is the recipient)
+		let nf = p1 + p2;                                   // blinded forwarding hops of the tail
+		let n = (u - 1) + nf + 1;                           // onion hops
+		// where the override sits: normally on the last hop of the first path; 1 route in 8 has none at all (the second
+		// path is then unreachable by construction, so only a plain single path p1 = nf is built)
+		let joined = r % 8 != 7;
+		let mut order: Vec<usize> = (0..MAX_NODES).collect();
+		for i in 0..n { let j = i + rng.below((MAX_NODES - i) as u64) as usize; order.swap(i, j); }
+		order.truncate(n);
+		let height = rng.range(1000, 800_000) as u32;
+		let final_value = match rng.below(3) { 0 => rng.range(1, 255), 1 => rng.range(256, 70_000), _ => rng.range(1 << 24, 1 << 36) };
+		let total = if rng.chance(1, 3) { final_value + draw_amount(rng) } else { final_value };
+		let excess = if rng.chance(1, 2) { 0 } else { rng.below(60) as u32 };
+		let min_final = rng.range(60, 400) as u16;
+		let secret = PaymentSecret(rng.bytes32());
+		let recipient = order[n - 1];
+		let node_of = |t: usize| order[u - 1 + t];          // t-th blinded forwarding hop
+		let scids: Vec<u64> = (0..nf).map(|_| rng.next() | 1).collect();
+		let deltas: Vec<u16> = (0..nf).map(|_| (min_delta + rng.below(40) as u32) as u16).collect();
+		// NON-ZERO fees inside the tail (base < 2^16 so that LDK's padded intermediate hop data keep one size, see below)
+		let bases: Vec<u32> = (0..nf).map(|_| if rng.chance(1, 4) { 0 } else { rng.below(60_000) as u32 }).collect();
+		let props: Vec<u32> = (0..nf).map(|_| match rng.below(3) { 0 => 0, 1 => rng.below(5000) as u32, _ => rng.below(2_000_000) as u32 }).collect();
+		let relay = |t: usize| PaymentRelay { cltv_expiry_delta: deltas[t], fee_proportional_millionths: props[t], fee_base_msat: bases[t] };
+		let first_of_second = if joined { p1 } else { 0 };
+		// amounts / expiries arriving at every tail hop (t = nf: the recipient): the sender adds exactly each hop's fee on what
+		// the hop must forward, so the largest amount whose fee is covered is exactly the next hop's amount
+		let mut tail_amt = vec![final_value; nf + 1];
+		for t in (0..nf).rev() { tail_amt[t] = tail_amt[t + 1] + ((tail_amt[t + 1] as u128 * props[t] as u128) / 1_000_000) as u64 + bases[t] as u64; }
+		let tail_delta: u32 = deltas.iter().map(|d| *d as u32).sum::<u32>() + min_final as u32 + excess;
+		let mut tail_cltv = vec![height + tail_delta; nf + 1];
+		for t in 0..nf { tail_cltv[t + 1] = tail_cltv[t] - deltas[t] as u32; }
+		// payment constraints per tail hop: 1 in 3 exactly AT the boundary (still fine); 1 route in 6 has one hop whose
+		// constraints the HTLC VIOLATES by one (amount below htlc_minimum_msat / expiry above max_cltv_expiry)
+		let small = |t: usize| t == nf || t < first_of_second || tail_amt[t] + 1 < (1 << 16);   // keeps LDK-built intermediate hop data at one padded size (<= 28 bytes: a debug_assert of blinded_hops() panics otherwise)
+		let mut cons: Vec<PaymentConstraints> = (0..=nf).map(|t| PaymentConstraints {
+			max_cltv_expiry: if rng.chance(1, 3) { tail_cltv[t] } else { height + 1_000_000 },
+			htlc_minimum_msat: if rng.chance(1, 3) && small(t) { tail_amt[t] } else { 1 } }).collect();
+		let viol: Option<(usize, bool)> = if r % 6 == 5 { let t = rng.below(nf as u64 + 1) as usize; Some((t, rng.chance(1, 2) && small(t))) } else { None };
+		if let Some((t, by_amount)) = viol { if by_amount { cons[t].htlc_minimum_msat = tail_amt[t] + 1; } else { cons[t].max_cltv_expiry = tail_cltv[t] - 1; } }
+		// ---- second path: the recipient's own, real constructor --------------------------------------------------
+		let payee_tlvs = ReceiveTlvs { payment_secret: secret, payment_constraints: cons[nf], payment_context: PaymentContext::Bolt12Refund(Bolt12RefundContext { payment_metadata: None }) };
+		let fwd2: Vec<PaymentForwardNode> = (first_of_second..nf).map(|t| PaymentForwardNode {
+			tlvs: ForwardTlvs { short_channel_id: scids[t], payment_relay: relay(t), payment_constraints: cons[t], features: BlindedHopFeatures::empty(), next_blinding_override: None },
+			node_id: ctx.ids[node_of(t)], htlc_maximum_msat: u64::MAX }).collect();
+		let second = match guarded(AssertUnwindSafe(|| BlindedPaymentPath::new(&fwd2, ctx.ids[recipient], ctx.kms[recipient].get_receive_auth_key(), payee_tlvs, u64::MAX, min_final, &ctx.kms[recipient], &ctx.secp))) {
+			Ok(Ok(x)) => x, Ok(Err(())) => { rec.discarded += 1; continue; },
+			Err(p) => { rec.discarded += 1; *rec.classes.entry(format!("real-only:concat-path-constructor-panic:{}", p.split(':').last().unwrap_or("").trim().chars().take(60).collect::<String>())).or_insert(0) += 1; continue; } };
+		// ---- first path: raw recipient data (TLV 2, 8, 10, 12), the last hop switches to the second path's key -----
+		let mut overrides: Vec<Option<PublicKey>> = vec![None; nf];
+		let (blinded_hops, first_point) = if joined {
+			overrides[p1 - 1] = Some(second.blinding_point());
+			let raw: Vec<(PublicKey, Vec<u8>)> = (0..p1).map(|t| {
+				let mut v = vec![2u8, 8]; v.extend_from_slice(&scids[t].to_be_bytes());
+				if let Some(o) = overrides[t] { v.push(8); v.push(33); v.extend_from_slice(&o.serialize()); }
+				let pr = relay(t).encode(); v.push(10); v.push(pr.len() as u8); v.extend_from_slice(&pr);
+				let pc = cons[t].encode(); v.push(12); v.push(pc.len() as u8); v.extend_from_slice(&pc);
+				(ctx.ids[node_of(t)], v) }).collect();
+			let mut sk = rng.bytes32(); sk[0] &= 0x7f; if sk == [0; 32] { sk[31] = 1; }
+			let s1 = SecretKey::from_slice(&sk).unwrap();
+			let mut hops = vh::blinded_hops_raw(&ctx.secp, &raw, &s1);
+			if hops.len() != p1 { rec.oracle_fail(format!("construct_blinded_hops made {} hops out of {}", hops.len(), p1)); continue; }
+			hops.extend_from_slice(second.blinded_hops());
+			(hops, PublicKey::from_secret_key(&ctx.secp, &s1))
+		} else { (second.blinded_hops().to_vec(), second.blinding_point()) };
+		if blinded_hops.len() != nf + 1 { rec.oracle_fail(format!("concatenated tail of {} forwarding nodes has {} hops", nf, blinded_hops.len())); continue; }
+		// ---- the sender's path --------------------------------------------------------------------------------------
+		let mut hops = vec![];
+		for i in 0..u {
+			let last = i == u - 1;
+			hops.push(RouteHop { pubkey: ctx.ids[order[i]], node_features: NodeFeatures::empty(), short_channel_id: (rng.next() | 1) ^ ((i as u64) << 56), channel_features: ChannelFeatures::empty(),
+				fee_msat: if last { tail_amt[0] - final_value } else { draw_amount(rng) % 1_000_000 }, cltv_expiry_delta: if last { tail_delta } else { min_delta + rng.below(60) as u32 }, maybe_announced_channel: true });
+		}
+		let path = Path { hops, blinded_tail: Some(BlindedTail { trampoline_hops: vec![], hops: blinded_hops, blinding_point: first_point, excess_final_cltv_expiry_delta: excess, final_value_msat: final_value }) };
+		let hash = PaymentHash(rng.bytes32());
+		let rof = RecipientOnionFields::spontaneous_empty(total);
+		let what = format!("concatenated blinded route {} ({} unblinded hops; first path {} forwarding nodes{}; second path {} forwarding nodes + recipient; tail fees base/ppm {:?}; {})", r, u, if joined { p1 } else { 0 },
+			if joined { format!(", next_blinding_override on its last hop (tail hop {}, {})", p1 - 1, if p1 == 1 { "the introduction node" } else { "NOT the introduction node" }) } else { "".into() }, nf - first_of_second, bases.iter().zip(props.iter()).collect::<Vec<_>>(),
+			match viol { None => "constraints respected".to_string(), Some((t, true)) => format!("tail hop {} gets {} msat but its htlc_minimum_msat is {}", t, tail_amt[t], cons[t].htlc_minimum_msat), Some((t, false)) => format!("tail hop {} gets expiry {} but its max_cltv_expiry is {}", t, tail_cltv[t], cons[t].max_cltv_expiry) });
+		let mut sk = rng.bytes32(); sk[0] &= 0x7f; if sk == [0; 32] { sk[31] = 1; }
+		let session = SecretKey::from_slice(&sk).unwrap(); let seed = rng.bytes32();
+		let mut in_amt = vec![final_value; n]; let mut in_cltv = vec![0u32; n];
+		for t in 0..=nf { in_amt[u - 1 + t] = tail_amt[t]; in_cltv[u - 1 + t] = tail_cltv[t]; }
+		for i in (0..u - 1).rev() { in_amt[i] = in_amt[i + 1] + path.hops[i].fee_msat; in_cltv[i] = in_cltv[i + 1] + path.hops[i].cltv_expiry_delta; }
+		let onion = match guarded(AssertUnwindSafe(|| create_payment_onion(&ctx.secp, &path, &session, &rof, height, &hash, &None, None, seed))) {
+			Err(p) => { rec.oracle_fail(format!("sender panicked while building the onion ({}): {}", what, p)); continue; },
+			Ok(Err(e)) => { rec.oracle_fail(format!("create_payment_onion refused {}: {:?}", what, e)); continue; },
+			Ok(Ok((o, a, c))) => { if a != in_amt[0] || c != in_cltv[0] { rec.oracle_fail(format!("first-hop amount/cltv {}/{} expected {}/{} ({})", a, c, in_amt[0], in_cltv[0], what)); } o },
+		};
+		// ---- every hop peels with its own node key; the blinding point is handed on as channelmanager does ----------
+		let mut cur = onion; let mut blinding: Option<PublicKey> = None; let mut expect_key = first_point;
+		let mut chain_op = format!("fwdchain {} {}", hex(&first_point.serialize()), nf); let mut chain_ans: Vec<String> = vec![]; let mut complete = false; let mut rejected = false;
+		for j in 0..n {
+			let last = j == n - 1;
+			let msg = UpdateAddHTLC { channel_id: ChannelId([0; 32]), htlc_id: 0, amount_msat: in_amt[j], payment_hash: hash, cltv_expiry: in_cltv[j], skimmed_fee_msat: None, onion_routing_packet: cur.clone(), blinding_point: blinding, hold_htlc: None, accountable: None };
+			let cur_height = if last { in_cltv[j] - 55 } else { in_cltv[j + 1] - 10 };
+			let res = guarded(AssertUnwindSafe(|| peel_payment_onion(&msg, &ctx.kms[order[j]], &NullLogger, &ctx.secp, cur_height, false).map_err(|e| format!("{} ({})", reason_name(&e.reason), e.msg))));
+			let info = match res {
+				Err(p) => { rec.oracle_fail(format!("hop {} panicked while peeling ({}): {}", j, what, p)); break; },
+				Ok(Err(e)) => {
+					// inside the path (and at the recipient) the error is invalid_onion_blinding; at the introduction node peel_payment_onion
+					// reports the relayed failure packet as InvalidOnionPayload / "Failed to decode update add htlc onion"
+					if viol.map_or(false, |(t, _)| u - 1 + t == j) && (if blinding.is_some() { e.starts_with("InvalidOnionBlinding") } else { e.starts_with("BadPayload (Failed to decode update add htlc onion") }) { rejected = true; }
+					else { rec.oracle_fail(format!("{} {} of {} (handed blinding point {}) could not peel the onion the sender built: {}", if last { "recipient, hop" } else { "hop" }, j, what, pt(&blinding), e)); }
+					break; },
+				Ok(Ok(i)) => i,
+			};
+			if viol.map_or(false, |(t, _)| u - 1 + t == j) { rec.oracle_fail(format!("onion hop {} of {} ACCEPTED an HTLC that violates the payment constraints of its recipient data", j, what)); break; }
+			match &info.routing {
+				PendingHTLCRouting::Forward { onion_packet, short_channel_id, blinded, .. } => {
+					if last { rec.oracle_fail(format!("recipient of {} forwarded", what)); break; }
+					if j < u - 1 {
+						if blinded.is_some() || *short_channel_id != path.hops[j + 1].short_channel_id || info.outgoing_amt_msat != in_amt[j + 1] || info.outgoing_cltv_value != in_cltv[j + 1] { rec.oracle_fail(format!("hop {} of {} got scid/amt/cltv {}/{}/{} expected {}/{}/{}", j, what, short_channel_id, info.outgoing_amt_msat, info.outgoing_cltv_value, path.hops[j + 1].short_channel_id, in_amt[j + 1], in_cltv[j + 1])); }
+						rec.case("fwdblind fwd none none none none", "none next=none", "fwdblind:unblinded", true);
+					} else {
+						let t = j - (u - 1);
+						let bf = match blinded { Some(x) => x, None => { rec.oracle_fail(format!("blinded hop {} of {} forwarded as an unblinded hop", j, what)); break; } };
+						if *short_channel_id != scids[t] || info.outgoing_amt_msat != in_amt[j + 1] || info.outgoing_cltv_value != in_cltv[j + 1] { rec.oracle_fail(format!("blinded hop {} of {} got scid/amt/cltv {}/{}/{} expected {}/{}/{}", j, what, short_channel_id, info.outgoing_amt_msat, info.outgoing_cltv_value, scids[t], in_amt[j + 1], in_cltv[j + 1])); }
+						// the property on the blinding instructions: what the path creator put into this hop's recipient data
+						if bf.next_blinding_override != overrides[t] { rec.oracle_fail(format!("tail hop {} (onion hop {}, {}) of {}: its peeled instructions have next_blinding_override {} but its encrypted recipient data say {}", t, j, if t == 0 { "introduction node" } else { "inside the blinded path" }, what, pt(&bf.next_blinding_override), pt(&overrides[t]))); }
+						if bf.inbound_blinding_point != expect_key { rec.oracle_fail(format!("tail hop {} of {} recorded inbound blinding point {} expected {}", t, what, hex(&bf.inbound_blinding_point.serialize()), hex(&expect_key.serialize()))); }
+						if (bf.failure == BlindedFailure::FromIntroductionNode) != (t == 0) { rec.oracle_fail(format!("tail hop {} of {} has failure role {:?}", t, what, bf.failure)); }
+						let derived = next_blinding_point(ctx, order[j], &bf.inbound_blinding_point);
+						let next = bf.next_blinding_override.unwrap_or(derived);
+						let shown = format!("blinded {} {} {}", hex(&bf.inbound_blinding_point.serialize()), pt(&bf.next_blinding_override), if bf.failure == BlindedFailure::FromIntroductionNode { "intro" } else { "node" });
+						rec.case(&format!("fwdblind bfwd {} {} {} {}", if t == 0 { hex(&first_point.serialize()) } else { "none".into() }, pt(&blinding), pt(&overrides[t]), hex(&derived.serialize())),
+							&format!("{} next={}", shown, hex(&next.serialize())),
+							&format!("fwdblind:{}:{}", if t == 0 { "intro" } else { "inside" }, if overrides[t].is_some() { "override" } else { "derived" }), true);
+						chain_op.push_str(&format!(" {} {}", pt(&overrides[t]), hex(&derived.serialize()))); chain_ans.push(shown);
+						// the next hop must be handed what the path creators intended: the override if present, else the derived key
+						expect_key = overrides[t].unwrap_or(derived);
+						blinding = Some(next);
+					}
+					if onion_packet.hop_data.len() != L { rec.oracle_fail(format!("forwarded packet size {} at hop {} of {}", onion_packet.hop_data.len(), j, what)); }
+					cur = onion_packet.clone();
+				},
+				PendingHTLCRouting::Receive { payment_data, .. } => {
+					if !last { rec.oracle_fail(format!("hop {} of {} thinks it is final", j, what)); break; }
+					if payment_data.payment_secret != secret || payment_data.total_msat != total || info.outgoing_amt_msat != final_value || info.outgoing_cltv_value != height + excess { rec.oracle_fail(format!("recipient of the concatenated paths got amt/cltv/total {}/{}/{} expected {}/{}/{} ({})", info.outgoing_amt_msat, info.outgoing_cltv_value, payment_data.total_msat, final_value, height + excess, total, what)); }
+					complete = true;
+				},
+				_ => { rec.oracle_fail(format!("unexpected routing at hop {} of {}", j, what)); break; },
+			}
+		}
+		if chain_ans.len() == nf { chain_ans.push(format!("final={}", pt(&blinding))); rec.case(&chain_op, &chain_ans.join(" | "), &format!("fwdchain:{}", if !joined { "single-path".into() } else { format!("joined-at-{}", if p1 == 1 { "intro" } else { "inside" }) }), true); }
+		*rec.classes.entry(format!("concat:{}:{}", if !joined { "single" } else if p1 == 1 { "override-at-intro" } else { "override-inside" }, if complete { "delivered".to_string() } else if rejected { format!("constraint-violation-rejected:{}:{}", if viol.unwrap().1 { "amount" } else { "expiry" }, if viol.unwrap().0 == nf { "recipient" } else { "forwarder" }) } else { "NOT-delivered".into() })).or_insert(0) += 1;
+	}
+}
+
 fn main() {
 	let args = &parse_args("c14");
 	let mut rec = Rec::new(&args.out, "c14");
@@ -600,6 +771,7 @@ fn main() {
 
 	boundary_section(&ctx, &mut rng, &mut rec, args.thorough);
 	blinded_section(&ctx, &mut rng, &mut rec, args.thorough, args.scale);
+	{ let mut rng2 = Rng::new(args.seed ^ 0xC14C_0CA7); concat_section(&ctx, &mut rng2, &mut rec, args.thorough, args.scale); }
 
 	for r in 0..n_routes {
 		// ---- choose a route: random length, or the longest that fits (N), or N+1 (oversize) -----
